@@ -29,12 +29,30 @@ struct growing_circular_array {
   [[nodiscard]] std::size_t capacity() const { return _capacity.load(std::memory_order_relaxed); }
 
   T* get(std::size_t idx, std::memory_order order) {
+    if (order == std::memory_order_relaxed || order == std::memory_order_consume) {
+      // we have to use memory_order_acquire (or something stricter): when we read an item that has
+      // been stored after a grow operation, the capacity check below must see the new capacity.
+      order = std::memory_order_acquire;
+    }
     // (1) - this acquire-load synchronizes-with the release-store (2)
     auto capacitiy = _capacity.load(std::memory_order_acquire);
-    return get_entry(idx, capacitiy).load(order);
+    for (;;) {
+      T* result = get_entry(idx, capacitiy).load(order);
+      // grow moves the entries in place and the vacated entries are reused for new items, so the
+      // entry we have just read is only meaningful if the capacity has not changed in the meantime.
+      auto current_capacity = _capacity.load(std::memory_order_acquire);
+      if (current_capacity == capacitiy) {
+        return result;
+      }
+      capacitiy = current_capacity;
+    }
   }
 
   void put(std::size_t idx, T* value, std::memory_order order) {
+    if (order == std::memory_order_relaxed) {
+      // this store has to be ordered after the capacity update of a previous grow operation - see get
+      order = std::memory_order_release;
+    }
     auto capacitiy = _capacity.load(std::memory_order_relaxed);
     get_entry(idx, capacitiy).store(value, order);
   }
